@@ -405,18 +405,20 @@ def _single_closure_def(raw, local):
 
 
 def desugar_for_each(raw, originals, stats=None, owner=None):
-    """`iter.for_each(|x| body)` is `for x in iter { body }`: the call becomes a loop over a synthetic `Iterator::next`, with
-    the closure's body spliced in as the loop body (its environment is a reference to the closure value, so captured
-    variables resolve through the closure aggregate exactly as before).  Only closures written in place are handled."""
+    """`iter.for_each(|x| body)` is `for x in iter { body }`, `iter.try_for_each(|x| body)` is `for x in iter { body? }`: the call
+    becomes a loop over a synthetic `Iterator::next`, with the closure's body spliced in as the loop body (its environment is a
+    reference to the closure value, so captured variables resolve through the closure aggregate exactly as before).  Only
+    closures written in place are handled."""
     changed = False
     blocks = raw["blocks"]
     for bi in range(len(blocks)):
         t = blocks[bi]["term"]
         if t["k"] != "call" or blocks[bi].get("cleanup") or t.get("target") is None:
             continue
-        d, _r = _fn_def(t)
-        if d != "std::iter::Iterator::for_each" or len(t["args"]) != 2:
+        d, r_ = _fn_def(t)
+        if d not in ("std::iter::Iterator::for_each", "std::iter::Iterator::try_for_each") or len(t["args"]) != 2:
             continue
+        is_try = d.endswith("try_for_each")
         cop = t["args"][1]
         if cop.get("k") != "move" or cop["p"][1]:
             continue
@@ -426,51 +428,59 @@ def desugar_for_each(raw, originals, stats=None, owner=None):
         q = originals.get(cst["rv"]["def"])
         if q is None or q.kind != "closure" or q.arg_count != 2:
             continue
-        if len(blocks) + len(q.raw["blocks"]) + 6 > MAX_BLOCKS:
+        if len(blocks) + len(q.raw["blocks"]) + 10 > MAX_BLOCKS:
             continue
         cl_local = cop["p"][0]
         L = raw["locals"]
         def new_local(ty):
             L.append({"ty": ty, "mut": True, "user": False, "synthetic": True})
             return len(L) - 1
-        it = new_local("<iterator>")
-        rit = new_local("&mut <iterator>")
+        info = ((t.get("func") or {}).get("fn") or {})
+        it_ty = info.get("self_ty") or "<iterator>"
+        it = new_local(it_ty)
+        rit = new_local("&mut " + it_ty)
         item_ty = q.raw["locals"][2]["ty"]
         nxt = new_local("std::option::Option<%s>" % item_ty)
         dsc = new_local("isize")
-        lb = len(L)
-        pb = len(raw.get("promoted") or [])
-        L.extend(copy.deepcopy(q.raw["locals"]))
-        if q.raw.get("promoted"):
-            raw.setdefault("promoted", [])
-            raw["promoted"].extend(copy.deepcopy(q.raw["promoted"]))
         ln = t.get("l")
-        H, S, B, E, U = len(blocks), len(blocks) + 1, len(blocks) + 2, len(blocks) + 3, len(blocks) + 4
-        qbase = len(blocks) + 5
-        env_mut = "&mut" in q.raw["locals"][1]["ty"][:5]
-        by_value = not q.raw["locals"][1]["ty"].startswith("&")
-        blocks.append({"cleanup": False, "inl": q.id, "stmts": [{"k": "assign", "l": ln, "lhs": [rit, []], "rv": {"k": "ref", "mut": True, "p": [it, []]}}],
-                       "term": {"l": ln, "k": "call", "synthetic": True,
-                                "func": {"k": "const", "ty": "fn", "val": "<I as std::iter::Iterator>::next", "fn": {"def": "std::iter::Iterator::next", "gargs": [], "trait": "std::iter::Iterator"}},
-                                "args": [{"k": "move", "p": [rit, []]}], "dest": [nxt, []], "target": S}})
-        blocks.append({"cleanup": False, "inl": q.id, "stmts": [{"k": "assign", "l": ln, "lhs": [dsc, []], "rv": {"k": "disc", "p": [nxt, []], "ty": "std::option::Option<%s>" % item_ty, "adt": "std::option::Option", "variants": [["None", "0"], ["Some", "1"]]}}],
-                       "term": {"l": ln, "k": "switch", "discr": {"k": "move", "p": [dsc, []]}, "dty": "isize", "targets": [["0", E], ["1", B]], "otherwise": U}})
-        env_rv = {"k": "use", "op": {"k": "move", "p": [cl_local, []]}} if by_value else {"k": "ref", "mut": env_mut, "p": [cl_local, []]}
-        blocks.append({"cleanup": False, "inl": q.id, "stmts": [{"k": "assign", "l": ln, "lhs": [lb + 1, []], "rv": env_rv},
-                                                              {"k": "assign", "l": ln, "lhs": [lb + 2, []], "rv": {"k": "use", "op": {"k": "move", "p": [nxt, ["d:1:Some", "f:0:0"]]}}}],
-                       "term": {"l": ln, "k": "goto", "target": qbase}})
-        blocks.append({"cleanup": False, "inl": q.id, "stmts": [], "term": {"l": ln, "k": "goto", "target": t["target"]}})
-        blocks.append({"cleanup": False, "inl": q.id, "stmts": [], "term": {"l": ln, "k": "unreachable"}})
-        for d_ in q.raw.get("debug", []):
-            raw["debug"].append({"name": d_["name"], "p": _map_place(d_["p"], lb)})
-        for qb in q.raw["blocks"]:
-            nb = {"cleanup": qb.get("cleanup", False), "inl": q.id, "stmts": [_map_stmt(s_, lb, pb) for s_ in qb["stmts"] if s_["k"] not in ("live", "dead")]}
-            qt = qb["term"]
-            if qt["k"] == "return":
-                nb["term"] = {"k": "goto", "target": H, "l": qt.get("l")}
-            else:
-                nb["term"] = _map_term(qt, lb, qbase, pb)
-            blocks.append(nb)
+        H = len(blocks); blocks.append(None)
+        S = len(blocks); blocks.append(None)
+        B = len(blocks); blocks.append(None)
+        E = len(blocks); blocks.append(None)
+        U = len(blocks); blocks.append({"cleanup": False, "inl": q.id, "stmts": [], "term": {"l": ln, "k": "unreachable"}})
+        if is_try:
+            R = len(blocks); blocks.append(None)      # after the body: branch on its result
+            RS = len(blocks); blocks.append(None)     # switch Continue / Break
+            BR = len(blocks); blocks.append(None)     # Break: dest = from_residual(..) ; goto T
+            rv_l = new_local(q.raw["locals"][0]["ty"])
+            cf = new_local("std::ops::ControlFlow<..>")
+            dsc2 = new_local("isize")
+            ret_target = R
+        else:
+            ret_target = H
+        entry, lb, pro = splice_closure(raw, q, cl_local, [{"k": "move", "p": [nxt, ["d:1:Some", "f:0:0"]]}], ret_target, ln)
+        next_resolved = ("<%s<I> as std::iter::Iterator>::next" % it_ty.split("<")[0]) if "<" in it_ty else None
+        next_val = ("<%s as std::iter::Iterator>::next" % it_ty)
+        def syn_call(defname, val, args, dest, target, extra=None):
+            fninfo = {"def": defname, "gargs": []}
+            if extra:
+                fninfo.update(extra)
+            return {"l": ln, "k": "call", "synthetic": True, "func": {"k": "const", "ty": "fn", "val": val, "fn": fninfo}, "args": args, "dest": dest, "target": target}
+        blocks[H] = {"cleanup": False, "inl": q.id, "stmts": [{"k": "assign", "l": ln, "lhs": [rit, []], "rv": {"k": "ref", "mut": True, "p": [it, []]}}],
+                     "term": syn_call("std::iter::Iterator::next", next_val, [{"k": "move", "p": [rit, []]}], [nxt, []], S,
+                                      {"trait": "std::iter::Iterator", "self_ty": it_ty, "resolved": next_resolved} if next_resolved else {"trait": "std::iter::Iterator", "self_ty": it_ty})}
+        blocks[S] = {"cleanup": False, "inl": q.id, "stmts": [{"k": "assign", "l": ln, "lhs": [dsc, []], "rv": {"k": "disc", "p": [nxt, []], "ty": "std::option::Option<%s>" % item_ty, "adt": "std::option::Option", "variants": [["None", "0"], ["Some", "1"]]}}],
+                     "term": {"l": ln, "k": "switch", "discr": {"k": "move", "p": [dsc, []]}, "dty": "isize", "targets": [["0", E], ["1", B]], "otherwise": U}}
+        blocks[B] = {"cleanup": False, "inl": q.id, "stmts": pro, "term": {"l": ln, "k": "goto", "target": entry}}
+        if is_try:
+            blocks[E] = {"cleanup": False, "inl": q.id, "stmts": [], "term": syn_call("std::ops::Try::from_output", "<R as std::ops::Try>::from_output", [{"k": "const", "ty": "()", "val": "()"}], t["dest"], t["target"])}
+            blocks[R] = {"cleanup": False, "inl": q.id, "stmts": [{"k": "assign", "l": ln, "lhs": [rv_l, []], "rv": {"k": "use", "op": {"k": "move", "p": [lb, []]}}}],
+                         "term": syn_call("std::ops::Try::branch", "<R as std::ops::Try>::branch", [{"k": "move", "p": [rv_l, []]}], [cf, []], RS)}
+            blocks[RS] = {"cleanup": False, "inl": q.id, "stmts": [{"k": "assign", "l": ln, "lhs": [dsc2, []], "rv": {"k": "disc", "p": [cf, []], "ty": "std::ops::ControlFlow", "adt": "std::ops::ControlFlow", "variants": [["Continue", "0"], ["Break", "1"]]}}],
+                          "term": {"l": ln, "k": "switch", "discr": {"k": "move", "p": [dsc2, []]}, "dty": "isize", "targets": [["0", H], ["1", BR]], "otherwise": U}}
+            blocks[BR] = {"cleanup": False, "inl": q.id, "stmts": [], "term": syn_call("std::ops::FromResidual::from_residual", "<R as std::ops::FromResidual>::from_residual", [{"k": "move", "p": [cf, ["d:1:Break", "f:0:0"]]}], t["dest"], t["target"])}
+        else:
+            blocks[E] = {"cleanup": False, "inl": q.id, "stmts": [], "term": {"l": ln, "k": "goto", "target": t["target"]}}
         b = blocks[bi]
         b["stmts"].append({"k": "assign", "l": ln, "lhs": [it, []], "rv": {"k": "use", "op": t["args"][0]}, "inl": q.id})
         b["term"] = {"k": "goto", "target": H, "l": ln, "inl_call": q.id}
@@ -478,7 +488,6 @@ def desugar_for_each(raw, originals, stats=None, owner=None):
         if stats is not None:
             stats.append((owner or raw.get("id"), q.id))
     return changed
-
 
 
 def splice_closure(raw, q, env_local, arg_ops, ret_target, ln=None, env_op=None):
@@ -822,7 +831,7 @@ def inline_body(db, f, originals, stats=None, mode="cons"):
                 if desugar_closure_calls(raw, originals, stats, f.id):
                     changed = True
         if not os.environ.get("VERIF_NO_FOREACH"):
-            has = any(b["term"]["k"] == "call" and _fn_def(b["term"])[0] == "std::iter::Iterator::for_each" for b in (raw if raw is not None else f.raw)["blocks"])
+            has = any(b["term"]["k"] == "call" and _fn_def(b["term"])[0] in ("std::iter::Iterator::for_each", "std::iter::Iterator::try_for_each") for b in (raw if raw is not None else f.raw)["blocks"])
             if has:
                 if raw is None:
                     raw = copy.deepcopy(f.raw)
